@@ -38,11 +38,13 @@ def add(wt, sid, prop, needs):
     ran.append({"cmd": "pytest (with change)", "rc": rc_t, "tail": out.strip().split("\n")[-1]})
     rc_with, out = sh(["timeout", "-k", "5", "300", PY, "demo_break.py"], cwd=wt)
     ran.append({"cmd": "demo_break.py (with change)", "rc": rc_with, "tail": out.strip().split("\n")[-2:]})
-    sh(["git", "stash"], cwd=wt)
+    # (not git stash: the stash is shared between all worktrees of a repository)
+    patch = os.path.join(d, "patch.diff")
+    assert sh(["git", "apply", "-R", patch], cwd=wt)[0] == 0, "cannot revert the change"
     try:
         rc_without, out = sh(["timeout", "-k", "5", "300", PY, "demo_break.py"], cwd=wt)
     finally:
-        sh(["git", "stash", "pop"], cwd=wt)
+        assert sh(["git", "apply", patch], cwd=wt)[0] == 0, "cannot re-apply the change"
     ran.append({"cmd": "demo_break.py (without change)", "rc": rc_without, "tail": out.strip().split("\n")[-2:]})
     ok = rc_t == 0 and rc_with == 1 and rc_without == 0
     meta = {"id": sid, "property": prop, "needs_to_manifest": needs, "confirmed": ok, "confirmation": ran,
